@@ -16,7 +16,7 @@ Here is a semantic property the library is supposed to satisfy:
   Statement: {p['statement']}
   Quantified over: {p['quantifier']['text']}
 
-Your task: make a small, realistic change to the library source (under {wt}/kingdon) that BREAKS this property while the code still imports, and the existing test suite still passes completely (all 105 tests). Think of the kind of bug a maintainer could plausibly introduce in a refactoring or "optimisation". Prefer a change that needs something SPECIFIC to manifest — a particular multi-step sequence of operations, an unusual input (particular key pattern / storage order / signature / dimension / coefficient type), a particular interleaving, or two cooperating sites that each look fine alone — NOT one that ordinary use would expose at once, and not one the existing tests catch. {('Make it different in mechanism from an obvious single sign flip: ' + variant_hint) if (variant_hint := {'b': 'target a different code path / mechanism than the most obvious one (e.g. a rarely-used branch, a cache/key-order interaction, a dimension- or signature-specific path).', 'c': 'target an interaction between two functions or a condition that only holds for unusual inputs.', 'd': 'put the change in a helper / utility / shared code path that the property depends on indirectly (not in the function the property names), or make it depend on a value type (int, float, Fraction, numpy, sympy, str), an option (cse, graded, wrapper, codegen_symbolcls, simp_func) or a way of invoking the operation (infix, method, algebra-level call, registered function) that is rarely combined with this property.'}.get(variant, '')) else ''}
+Your task: make a small, realistic change to the library source (under {wt}/kingdon) that BREAKS this property while the code still imports, and the existing test suite still passes completely (all 105 tests). Think of the kind of bug a maintainer could plausibly introduce in a refactoring or "optimisation". Prefer a change that needs something SPECIFIC to manifest — a particular multi-step sequence of operations, an unusual input (particular key pattern / storage order / signature / dimension / coefficient type), a particular interleaving, or two cooperating sites that each look fine alone — NOT one that ordinary use would expose at once, and not one the existing tests catch. {('Make it different in mechanism from an obvious single sign flip: ' + variant_hint) if (variant_hint := {'b': 'target a different code path / mechanism than the most obvious one (e.g. a rarely-used branch, a cache/key-order interaction, a dimension- or signature-specific path).', 'c': 'target an interaction between two functions or a condition that only holds for unusual inputs.', 'e': 'make the change show only when TWO rarely combined features meet (for example array-valued coefficients with symbolic ones, graded mode with registered functions, a custom basis with a wrapper, numpy scalars with reflected operators, an empty or scalar-only multivector with a composite operator), each feature being fine on its own.', 'd': 'put the change in a helper / utility / shared code path that the property depends on indirectly (not in the function the property names), or make it depend on a value type (int, float, Fraction, numpy, sympy, str), an option (cse, graded, wrapper, codegen_symbolcls, simp_func) or a way of invoking the operation (infix, method, algebra-level call, registered function) that is rarely combined with this property.'}.get(variant, '')) else ''}
 
 Deliver, in the directory {out}:
   1. patch.diff  — output of `git -C {wt} diff` (the change only; do not commit it).
